@@ -1,6 +1,285 @@
-//! C05 — not built yet.
-use crate::core::Ctx;
+//! C05 — ==, cmp and hash follow the mathematical value in every type, whichever producer made
+//! the value.  Integers: history explorer (value key) with order/hash invariants in every state.
+//! Floats: all pairs of a closed universe x precisions x producers (constructor and arithmetic
+//! results carrying p+1 digits), +-inf.  Rationals: all pairs of Q(N,N) in every spelling.
+
+use crate::core::{guard, Ctx, Rec};
+use crate::explore::{explore, Cfg};
+use crate::fref::*;
+use crate::uni::*;
+use dashu_base::AbsOrd;
+use dashu_float::round::mode;
+use dashu_float::{Context, FBig, Repr};
+use dashu_int::Word;
+use dashu_ratio::{RBig, Relaxed};
+use num_bigint::BigInt;
+use num_integer::Integer;
+use num_traits::{One, Signed, Zero};
+use std::cmp::Ordering;
+use std::hash::{Hash, Hasher};
+
+const P: &str = "C05";
+
+#[derive(Clone)]
+enum Ext {
+    NegInf,
+    Fin(Rat),
+    PosInf,
+}
+fn ext_cmp(a: &Ext, b: &Ext) -> Ordering {
+    let rank = |e: &Ext| match e {
+        Ext::NegInf => 0,
+        Ext::Fin(_) => 1,
+        Ext::PosInf => 2,
+    };
+    match (a, b) {
+        (Ext::Fin(x), Ext::Fin(y)) => x.cmp(y),
+        _ => rank(a).cmp(&rank(b)),
+    }
+}
+fn ext_abs(a: &Ext) -> Ext {
+    match a {
+        Ext::Fin(x) => Ext::Fin(x.abs()),
+        _ => Ext::PosInf,
+    }
+}
+
+struct FV<const B: Word> {
+    z: FBig<mode::Zero, B>,
+    h: FBig<mode::HalfAway, B>,
+    val: Ext,
+    how: String,
+}
+
+fn fvals<const B: Word>(p_max: u32, e_max: i64, prod_p: &[usize]) -> Vec<FV<B>> {
+    let mut out: Vec<FV<B>> = vec![];
+    let uni = f_universe(B as u32, p_max, e_max);
+    let mut push = |repr: Repr<B>, prec: usize, how: String, out: &mut Vec<FV<B>>| {
+        let val = if repr.is_infinite() {
+            if repr.exponent() >= 0 {
+                Ext::PosInf
+            } else {
+                Ext::NegInf
+            }
+        } else {
+            Ext::Fin(fval(&repr).rat())
+        };
+        // the same (representation, precision) wrapped in two rounding modes
+        let z = FBig::<mode::Zero, B>::from_repr(repr.clone(), Context::new(prec));
+        let h = FBig::<mode::HalfAway, B>::from_repr(repr, Context::new(prec));
+        out.push(FV { z, h, val, how });
+    };
+    for (s, e) in &uni {
+        let d = digits_b(s, B as u32);
+        for prec in [0usize, d.max(1), d + 3] {
+            push(mk_repr::<B>(s, *e), prec, format!("from_repr({}e{}, precision {})", s, e, prec), &mut out);
+        }
+    }
+    push(Repr::<B>::infinity(), 0, "+inf".into(), &mut out);
+    push(Repr::<B>::neg_infinity(), 0, "-inf".into(), &mut out);
+    push(Repr::<B>::infinity(), 5, "+inf (precision 5)".into(), &mut out);
+    // arithmetic producers: results may legitimately carry p+1 digits
+    let small = f_universe(B as u32, 2.min(p_max), 2);
+    let mut seen_prod = std::collections::HashSet::new();
+    for &p in prod_p {
+        let c = Context::<mode::HalfAway>::new(p);
+        for (s1, e1) in &small {
+            if digits_b(s1, B as u32) > p {
+                continue;
+            }
+            for (s2, e2) in &small {
+                if digits_b(s2, B as u32) > p {
+                    continue;
+                }
+                let (a, b) = (mk_repr::<B>(s1, *e1), mk_repr::<B>(s2, *e2));
+                for (name, r) in [("add", guard(|| c.add(&a, &b).value())), ("mul", guard(|| c.mul(&a, &b).value()))] {
+                    if let Ok(v) = r {
+                        if digits_b(&i_to_ref(v.repr().significand()), B as u32) > p {
+                            let repr = v.repr().clone();
+                            // one producer per distinct (value, precision)
+                            if !seen_prod.insert((i_to_ref(repr.significand()), repr.exponent(), p)) {
+                                continue;
+                            }
+                            let val = Ext::Fin(fval(&repr).rat());
+                            // same representation/precision, both mode types, built by the arithmetic itself
+                            let z = Context::<mode::Zero>::new(p);
+                            let zv = match name {
+                                "add" => guard(|| z.add(&a, &b).value()),
+                                _ => guard(|| z.mul(&a, &b).value()),
+                            };
+                            if let Ok(zv) = zv {
+                                if zv.repr() == v.repr() {
+                                    out.push(FV { z: zv, h: v, val, how: format!("Context(p={}).{}({}e{}, {}e{}) [p+1 digits]", p, name, s1, e1, s2, e2) });
+                                }
+                            }
+                        }
+                    }
+                }
+            }
+        }
+    }
+    out
+}
+
+fn float_pairs<const B: Word>(ctx: &mut Ctx, p_max: u32, e_max: i64, prod_p: &[usize]) {
+    let vals = fvals::<B>(p_max, e_max, prod_p);
+    let n = vals.len() as u64;
+    ctx.bound(&format!("float_values_base{}", B), n);
+    let vr = &vals;
+    ctx.sweep(&format!("float.pairs.B{}", B), n * n, |i, rec| {
+        let (a, b) = (&vr[(i / n) as usize], &vr[(i % n) as usize]);
+        let want = ext_cmp(&a.val, &b.val);
+        let wabs = ext_cmp(&ext_abs(&a.val), &ext_abs(&b.val));
+        let case = || format!("base {}: {}  vs  {}", B, a.how, b.how);
+        let class = format!("B{}", B);
+        let chk = |rec: &mut Rec, site: &str, got: Result<Ordering, String>, want: Ordering| {
+            rec.step();
+            match got {
+                Ok(g) if g == want => {}
+                Ok(g) => rec.fail(format!("{}|{}|wrong-order|{}", P, site, class), case(), format!("{:?}", g), format!("{:?}", want)),
+                Err(p) => rec.fail(format!("{}|{}|panic|{}", P, site, class), case(), p, format!("{:?}", want)),
+            }
+        };
+        chk(rec, "FBig::cmp", guard(|| a.z.cmp(&b.z)), want);
+        chk(rec, "FBig::cmp(HalfAway)", guard(|| a.h.cmp(&b.h)), want);
+        chk(rec, "FBig::partial_cmp(cross-mode)", guard(|| a.z.partial_cmp(&b.h).unwrap()), want);
+        chk(rec, "FBig::abs_cmp", guard(|| a.z.abs_cmp(&b.z)), wabs);
+        chk(rec, "Repr::cmp", guard(|| a.z.repr().cmp(b.z.repr())), want);
+        rec.step();
+        match guard(|| (a.z == b.z, a.z == b.h, a.h == b.h)) {
+            Ok((e1, e2, e3)) => {
+                let w = want == Ordering::Equal;
+                if e1 != w || e2 != w || e3 != w {
+                    rec.fail(format!("{}|FBig::eq|wrong-value|{}", P, class), case(), format!("{:?}", (e1, e2, e3)), format!("{}", w));
+                }
+            }
+            Err(p) => rec.fail(format!("{}|FBig::eq|panic|{}", P, class), case(), p, "a bool"),
+        }
+        if want == Ordering::Equal {
+            rec.hit("equal-values(different precision/producer)");
+        }
+        if let (Ext::Fin(x), Ext::Fin(y)) = (&a.val, &b.val) {
+            if !x.is_zero() && !y.is_zero() {
+                rec.nontrivial();
+            }
+        } else {
+            rec.hit("infinite-operand");
+        }
+        rec.sample(case);
+    });
+    ctx.require_classes(&format!("float.pairs.B{}", B), &["equal-values(different precision/producer)", "infinite-operand"]);
+}
+
+fn h64<T: Hash>(x: &T) -> u64 {
+    let mut h = std::collections::hash_map::DefaultHasher::new();
+    x.hash(&mut h);
+    h.finish()
+}
 
 pub fn run(ctx: &mut Ctx) {
-    ctx.machinery("check C05 is not built yet");
+    ctx.rule = "integers: breadth-first exploration of operation histories over a pool of 2 IBig + 1 UBig (state = signs and words), in every state each live value is compared (==, cmp, hash with two hashers, abs_cmp) with the canonical construction of the same mathematical value and the live values pairwise with the num_bigint order; floats: all ordered pairs of { F(B,P,E) x precisions {0, digits, digits+3}, results of Context add/mul that carry p+1 digits, +-inf } for ==, cmp, partial_cmp across rounding modes, abs_cmp; rationals: all ordered pairs of Q(N,N) in every spelling (RBig, Relaxed k*n/k*d, multi-word common factor). non-trivial = both values non-zero and finite".into();
+    let cfg = Cfg { prop: P, with_capacity: false, with_order: true, max_words: 6, depth: ctx.pick(3, 4), full_alphabet: !ctx.quick(), max_states_per_level: ctx.pick(40_000, 300_000) };
+    explore(ctx, &cfg);
+    if matches!(ctx.mode, crate::core::Mode::Replay { ref sweep, .. } if sweep == "path") {
+        return;
+    }
+
+    // floats
+    if ctx.quick() {
+        float_pairs::<2>(ctx, 4, 5, &[1, 2, 3]);
+        float_pairs::<10>(ctx, 2, 3, &[1, 2]);
+    } else {
+        float_pairs::<2>(ctx, 5, 7, &[1, 2, 3, 4]);
+        float_pairs::<10>(ctx, 2, 5, &[1, 2, 3]);
+        float_pairs::<3>(ctx, 3, 4, &[1, 2]);
+        float_pairs::<16>(ctx, 2, 3, &[1, 2]);
+    }
+
+    // rationals
+    let nmax: i64 = ctx.pick(8, 12);
+    let mut reduced: Vec<(BigInt, BigInt)> = vec![];
+    for d in 1..=nmax {
+        for n in -nmax..=nmax {
+            if BigInt::from(n).gcd(&BigInt::from(d)).is_one() || (n == 0 && d == 1) {
+                reduced.push((BigInt::from(n), BigInt::from(d)));
+            }
+        }
+    }
+    // a few multi-word fractions sharing structure
+    let big = BigInt::from(shape(3, "lcgA", 0));
+    for (n, d) in [(big.clone(), BigInt::from(7)), (BigInt::from(7), big.clone()), (-big.clone(), &big + 2), (&big + 1, big.clone())] {
+        let g = n.gcd(&d);
+        reduced.push((n / &g, d / &g));
+    }
+    let factors: Vec<BigInt> = vec![BigInt::one(), BigInt::from(3), BigInt::from(5), BigInt::from(9), BigInt::from(u64::MAX), (BigInt::one() << 64u32) + 1];
+    struct QV {
+        r: RBig,
+        x: Relaxed,
+        val: Rat,
+        how: String,
+    }
+    let mut qv: Vec<QV> = vec![];
+    for (n, d) in &reduced {
+        for k in &factors {
+            let (kn, kd) = (n * k, d * k);
+            let r = RBig::from_parts(ref_to_i(&kn), ref_to_u(kd.magnitude()));
+            let x = Relaxed::from_parts(ref_to_i(&kn), ref_to_u(kd.magnitude()));
+            qv.push(QV { r, x, val: Rat::new(n.clone(), d.clone()), how: format!("({}*{})/({}*{})", n, k, d, k) });
+        }
+    }
+    let nq = qv.len() as u64;
+    ctx.bound("rational_values", nq);
+    let qr = &qv;
+    ctx.sweep("rational.pairs", nq * nq, |i, rec| {
+        let (a, b) = (&qr[(i / nq) as usize], &qr[(i % nq) as usize]);
+        let want = a.val.cmp(&b.val);
+        let wabs = a.val.abs().cmp(&b.val.abs());
+        let case = || format!("{} vs {}", a.how, b.how);
+        let mut bad = |rec: &mut Rec, site: &str, obs: String, exp: String| rec.fail(format!("{}|{}|wrong-value|rational", P, site), case(), obs, exp);
+        rec.steps(8);
+        match guard(|| (a.r == b.r, a.r.cmp(&b.r), a.x == b.x, a.x.cmp(&b.x), a.r.abs_cmp(&b.r), a.x.abs_cmp(&b.x), h64(&a.r) == h64(&b.r), a.r.as_relaxed() == &b.x)) {
+            Ok((e, c, xe, xc, ac, xac, he, mixed)) => {
+                let w = want == Ordering::Equal;
+                if e != w {
+                    bad(rec, "RBig::eq", format!("{}", e), format!("{}", w));
+                }
+                if c != want {
+                    bad(rec, "RBig::cmp", format!("{:?}", c), format!("{:?}", want));
+                }
+                if xe != w {
+                    bad(rec, "Relaxed::eq", format!("{}", xe), format!("{}", w));
+                }
+                if xc != want {
+                    bad(rec, "Relaxed::cmp", format!("{:?}", xc), format!("{:?}", want));
+                }
+                if ac != wabs {
+                    bad(rec, "RBig::abs_cmp", format!("{:?}", ac), format!("{:?}", wabs));
+                }
+                if xac != wabs {
+                    bad(rec, "Relaxed::abs_cmp", format!("{:?}", xac), format!("{:?}", wabs));
+                }
+                if w && !he {
+                    bad(rec, "RBig::hash", "equal values hash differently".into(), "equal hashes".into());
+                }
+                if mixed != w {
+                    bad(rec, "Relaxed::eq(rbig.as_relaxed)", format!("{}", mixed), format!("{}", w));
+                }
+            }
+            Err(p) => rec.fail(format!("{}|rational-compare|panic|rational", P), case(), p, "no panic"),
+        }
+        // RBig canonical form (what == and hash rely on)
+        let (n, d) = (i_to_ref(a.r.numerator()), BigInt::from(u_to_ref(a.r.denominator())));
+        if n != a.val.n || d != a.val.d {
+            rec.fail(format!("{}|RBig::from_parts|non-canonical|rational", P), a.how.clone(), format!("{}/{}", n, d), a.val.show());
+        }
+        if want == Ordering::Equal && a.how != b.how {
+            rec.hit("equal-values(different spelling)");
+        }
+        if !a.val.is_zero() && !b.val.is_zero() {
+            rec.nontrivial();
+        }
+        rec.sample(case);
+    });
+    ctx.require_classes("rational.pairs", &["equal-values(different spelling)"]);
+    let _ = BigInt::zero().is_negative();
 }
